@@ -1096,11 +1096,11 @@ def gen_wire_session(rng, t, st0=None):
     cur = dict(st0 or {"shards": WIRE_NSH, "parser": False, "primary_reads": True})
     refusal = False     # (a checkout refused by the SERVERS ends the session on the wire: C07; the refused checkout exercised here is the one of a shard that a RELOAD removed)
 
-    def other():
+    def other(nostmt=False):
         if rng.random() < 0.35:
             return
         what = rng.choice([w for w in OTHERS if w != "refused"] + ["reload_pool_size", "reload_default_role"])
-        if refusal and what == "txn":
+        if (refusal or nostmt) and what == "txn":
             what = "reload_same"
         if what == "txn":
             for sql in ("BEGIN", rng.choice(["SELECT 1", "UPDATE t SET a = 2"]), "COMMIT"):
@@ -1117,8 +1117,8 @@ def gen_wire_session(rng, t, st0=None):
         ntag[0] += 1
         items.append(("stmt", "%s /*%s*/" % (sql, tag), tag))
 
-    def shows(first=None):
-        other()
+    def shows(first=None, nostmt=False):
+        other(nostmt)
         ss = ["SHOW SHARD", "SHOW SERVER ROLE", "SHOW PRIMARY READS"]
         rng.shuffle(ss)
         if first:
@@ -1134,7 +1134,7 @@ def gen_wire_session(rng, t, st0=None):
             v = rng.choice(["0", "1", "2", "2", "3", "7", "002", "0000", "ANY", "any", "Any", "99999999999999999999999", "18446744073709551615", "18446744073709551616",
                             str(rng.getrandbits(rng.choice([3, 16, 64, 70])))])
             items.append(("cmd", respell(rng, "SET SHARD TO " + quote(v)), None))
-            shows("SHOW SHARD")
+            shows("SHOW SHARD", nostmt=v.lower() == "any")      # the shard ANY chose is read back from SHOW SHARD before any statement
         elif r < 0.5:
             v = rng.choice([str(rng.getrandbits(rng.choice([4, 31, 62, 63]))), "9223372036854775807", "9223372036854775808", "0", "000123", "1" + "0" * 39])
             items.append(("cmd", respell(rng, "SET SHARDING KEY TO " + rng.choice(["%s", "'%s'"]) % v), None))
@@ -1231,7 +1231,7 @@ def monitor_wire(oracle, settings, items, replies, landed, forwarded):
         cmd, cap = want
         if cmd == "SetShard" and cap.lower() == b"any":
             kindw = "ok"
-            pending_any = True
+            pending_any = doc.n          # the number of shards ANY chose among
         else:
             chosen = key_shard(doc.func, int(cap), doc.n) if cmd == "SetShardingKey" and int(cap) <= I64_MAX else None
             kindw = doc.apply(cmd, cap, chosen)
@@ -1248,8 +1248,8 @@ def monitor_wire(oracle, settings, items, replies, landed, forwarded):
                 problems.append((i, "%r: column %r" % (text, rep[1])))
                 break
             if cmd == "ShowShard" and pending_any:
-                if not (rep[2].isdigit() and int(rep[2]) < doc.n):
-                    problems.append((i, "after SET SHARD TO ANY, SHOW SHARD reports %r (%d shards)" % (rep[2], doc.n)))
+                if not (rep[2].isdigit() and int(rep[2]) < pending_any):
+                    problems.append((i, "after SET SHARD TO ANY, SHOW SHARD reports %r (%d shards)" % (rep[2], pending_any)))
                     break
                 doc.shard, pending_any = int(rep[2]), False
             elif rep[2] != doc.show(cmd):
